@@ -26,6 +26,7 @@ Scal(L, L0, Ln, N) == [L |-> L, L0 |-> L0, Ln |-> Ln, N |-> N,
 MC_Scalars == { Scal(L, L0, Ln, N) :
                   L \in {I(-5), Q(-23, 2)}, L0 \in {No, Yes(I(-12)), Yes(I(-5))},
                   Ln \in {No, Yes(I(-20))}, N \in {1, 2, 7, 100} }
+MC_ScalarsMid == { sc \in MC_Scalars : sc.N \in {2, 100} }
 MC_ScalarsTwo == { Scal(I(-5), Yes(I(-12)), No, 7), Scal(Q(-23, 2), No, Yes(I(-20)), 100) }
 MC_ScalarsOne == { Scal(Q(-23, 2), Yes(I(-12)), Yes(I(-20)), 7) }
 
@@ -117,7 +118,7 @@ DefaultTheta(K) == {CHOOSE th \in MC_Theta(K) : \A i \in 1..K : ~th.lb[i].ex /\ 
 QuickK(K) ==
     Product(K, MC_Scalars, DefaultH(K), DefaultB(K), MC_BootTwo(K), DefaultTheta(K))
     \cup Product(K, MC_ScalarsTwo, MC_H(K), MC_B(K), MC_Boot(K), MC_Theta(K))
-FullK(K) == Product(K, MC_Scalars, MC_H(K), MC_B(K), MC_Boot(K), MC_Theta(K))
+FullK(K) == Product(K, MC_ScalarsMid, MC_H(K), MC_B(K), MC_Boot(K), MC_Theta(K))
 NSDK(K) == Product(K, MC_ScalarsOne,
                    IF K = 1 THEN MC_HAllNSD(1, -4..0, {0})
                    ELSE IF K = 2 THEN MC_HAllNSD(2, -3..0, -2..2) ELSE MC_HAllNSD(3, -2..0, -1..1),
